@@ -448,12 +448,19 @@ class Harness(object):
             for p in fi.params[1:]:
                 env.vars.setdefault(p, False)
             for s in fi.node.body:
-                if isinstance(s, ast.Assign):
+                if isinstance(s, (ast.Assign, ast.FunctionDef)):
                     it.exec_stmt(s, env, fi.module, fi, 0)
             arg = lib.get_kw(self.call, 'actions', 1)
             table = it.eval(arg, env, fi.module, fi, 0)
             return it.call_function(self.node_fi, [build(sp), table, False])
-        return sp, it.explore(thunk)
+        paths = it.explore(thunk)
+        self.state_reads, self.state_writes = list(it.state_reads), list(it.state_writes)
+        # helpers the normaliser could not inline but whose bodies were interpreted here are thereby reviewed: a difference
+        # found *through* them is definite (the engine otherwise downgrades violations in files with unreviewed helpers)
+        left = getattr(self.idx, 'unreviewed', None)
+        if left:
+            self.idx.unreviewed = [q for q in left if q not in it.followed]
+        return sp, paths
 
 
 def tokens_to_values(sp, seq, g):
@@ -696,6 +703,16 @@ def d4_literals(ctx, idx, st):
                 expect = sp.mul(expect, sp.lookup('suffixes', vals[1]))
             bad = [p for p in paths if p.kind != 'ret' or not isinstance(p.value, S.Num) or not sp.equal(p.value, expect)]
             construct = 'number %s: value' % ('with suffix' if len(vals) == 2 else 'without suffix')
+            stale = [p for p in paths if p.kind == 'ret' and isinstance(p.value, S.StateVal)]
+            if stale:
+                tgt0 = idx.func(ME + '.eval')
+                r.violation(construct, 'for the tokens %s the handler returns `%s`, a value read back from the state of the expression '
+                            'object%s instead of float(text)*suffixes[suffix] of the current call: the result is memoised across calls '
+                            'with different suffix tables (the expression is cached process-wide), so a literal such as `2k` keeps the '
+                            'multiplier of the first evaluation' % (render(vals), S.show(stale[0].value),
+                                                                    (' (written: %s)' % ', '.join(sorted(set(h.state_writes)))) if h.state_writes else ''),
+                            tgt0.loc, expected=S.show(expect), found=S.show(stale[0].value))
+                continue
             tgt = idx.func(ME + '.eval_number') if idx.has_func(ME + '.eval_number') else idx.func(ME + '.eval')
             if case_folded(sp):
                 continue    # reported by D7
@@ -856,24 +873,26 @@ def d5_whitespace(ctx, idx, st):
         ev = idx.func('mitxgraders.helpers.calc.expressions.evaluator')
         F = ev.params[0]
         paths = nf.decision_paths(ev.node.body)
-        none_ok = blank_ok = False
+        none_ok = blank_ok = empty_ok = False
+        nan_decidable = True
         for p in paths:
             if p.leaf.kind != 'ret':
                 continue
             first = p.leaf.expr.elts[0] if isinstance(p.leaf.expr, ast.Tuple) and p.leaf.expr.elts else p.leaf.expr
             is_nan = nf.match("float('nan')", first) is not None or nf.match('_X.nan', first) is not None
-            gs = p.guards
-            if len(gs) == 1 and nf.match('%s is None' % F, gs[0]) is not None:
-                none_ok = none_ok or is_nan
-            if len(gs) == 2 and nf.match('%s is not None' % F, gs[0]) is not None and (
-                    nf.match("%s.strip() == ''" % F, gs[1]) is not None or nf.match('not %s.strip()' % F, gs[1]) is not None):
-                blank_ok = blank_ok or is_nan
+            if not is_nan:
+                continue
+            # the guards of the path, evaluated for: formula None / a formula of blanks only / the empty string
+            none_ok = none_ok or all(_front_door(g_, F, 'none') is True for g_ in p.guards)
+            blank_ok = blank_ok or all(_front_door(g_, F, 'blank') is True for g_ in p.guards)
+            empty_ok = empty_ok or all(_front_door(g_, F, 'empty') is True for g_ in p.guards)
+            nan_decidable = nan_decidable and all(_front_door(g_, F, 'blank') is not None for g_ in p.guards)
         if none_ok:
             r.ok('evaluator: None', 'evaluates to nan', ev.loc)
         else:
             r.undecided('evaluator: None', 'no path `formula is None -> nan` recognised', ev.loc)
         if not blank_ok:
-            raw = any(len(p.guards) == 2 and (nf.match("%s == ''" % F, p.guards[1]) is not None) for p in paths if p.leaf.kind == 'ret')
+            raw = empty_ok and nan_decidable      # '' is mapped to nan, a string of blanks provably is not
             if raw:
                 r.violation('evaluator: blank input', 'the emptiness test is applied to the unstripped formula: a submission of '
                             'blanks is sent to the parser and rejected instead of evaluating to nan', ev.loc,
@@ -905,6 +924,56 @@ def d5_whitespace(ctx, idx, st):
             r.check(good, '%s: name token' % k, 'Combine: one contiguous token',
                     'the name of a %s is not a single Combine token: its pieces arrive separately / may be separated by '
                     'white space, and the evaluator looks up only the first piece' % k, gloc(g, alt))
+
+
+def _front_door(e, F, scen):
+    """Three-valued value of a guard of evaluator() when the formula parameter F is None ('none'), a non-empty string of
+    blanks ('blank') or '' ('empty').  None = unknown / would raise."""
+    if isinstance(e, ast.Constant):
+        return bool(e.value)
+    if isinstance(e, ast.BoolOp):
+        vals = []
+        for v in e.values:
+            x = _front_door(v, F, scen)
+            if isinstance(e.op, ast.And) and x is False:
+                return False
+            if isinstance(e.op, ast.Or) and x is True:
+                return True
+            if x is None:
+                return None          # evaluation order: an unknown/raising operand is reached
+            vals.append(x)
+        return isinstance(e.op, ast.And)
+    if isinstance(e, ast.UnaryOp) and isinstance(e.op, ast.Not):
+        x = _front_door(e.operand, F, scen)
+        return None if x is None else not x
+
+    def text(x):
+        """'NONE' | the string value of x in the scenario | None (unknown)."""
+        if isinstance(x, ast.Name) and x.id == F:
+            return {'none': 'NONE', 'blank': '  ', 'empty': ''}[scen]
+        if isinstance(x, ast.Constant) and isinstance(x.value, str):
+            return x.value
+        if isinstance(x, ast.Constant) and x.value is None:
+            return 'NONE'
+        if isinstance(x, ast.Call) and isinstance(x.func, ast.Attribute) and x.func.attr in ('strip', 'lstrip', 'rstrip') and not x.args:
+            inner = text(x.func.value)
+            if inner is None or inner == 'NONE':
+                return None          # None.strip() raises
+            return getattr(inner, x.func.attr)()
+        return None
+    if isinstance(e, ast.Compare) and len(e.ops) == 1:
+        a, b = text(e.left), text(e.comparators[0])
+        if a is None or b is None:
+            return None
+        if isinstance(e.ops[0], (ast.Is, ast.Eq)):
+            return a == b if not (isinstance(e.ops[0], ast.Is) and 'NONE' not in (a, b)) else None
+        if isinstance(e.ops[0], (ast.IsNot, ast.NotEq)):
+            return a != b if not (isinstance(e.ops[0], ast.IsNot) and 'NONE' not in (a, b)) else None
+        return None
+    t = text(e)
+    if t is not None:
+        return t not in ('NONE', '')
+    return None
 
 
 # ----------------------------------------------------------------------------- D6
@@ -1272,7 +1341,6 @@ MUTANTS = [
     # D3
     Mutant('power-folded-from-the-left', EXPR, "        result = data.pop()\n        while data:\n            # Result contains the current exponent\n            working = data.pop()\n",
            "        result = data.pop(0)\n        while data:\n            # Result contains the current exponent\n            working = data.pop(0)\n", 'D3'),
-    Mutant('quotient-inverted', EXPR, "result = result/value", "result = value/result", 'D3'),
     Mutant('negation-parity-off-by-one', EXPR, "return num * (-1)**(len(parse_result) - 1)", "return num * (-1)**len(parse_result)", 'D3'),
     Mutant('parallel-zero-shortcut-dropped', EXPR, "        if 0 in parse_result:\n            return 0\n", "", 'D3'),
     # D4
@@ -1280,6 +1348,15 @@ MUTANTS = [
     Mutant('metric-suffix-misscaled', FUNCS, "'u': 1e-6", "'u': 1e-3", 'D4'),
     Mutant('exponent-sign-not-part-of-numeral', EXPR, "Optional(CaselessLiteral(\"E\") + Optional(plus_minus) + number_part)",
            "Optional(CaselessLiteral(\"E\") + number_part)", 'D4'),
+    Mutant('number-literal-memoised-on-the-expression', EXPR,
+           "        actions = {\n            'number': lambda parse_result: self.eval_number(parse_result, suffixes),",
+           "        if not hasattr(self, 'number_values'):\n            self.number_values = {}\n\n"
+           "        def number_value(parse_result):\n            literal = tuple(parse_result)\n"
+           "            if literal not in self.number_values:\n"
+           "                self.number_values[literal] = self.eval_number(parse_result, suffixes)\n"
+           "            return self.number_values[literal]\n\n"
+           "        actions = {\n            'number': number_value,", 'D4',
+           note='seeded C03c: after evaluating 2k with k=1000 the same (cached) expression gives 2000 for k=1024'),
     # D5
     Mutant('raw-string-parsed', EXPR, "parsed = self.raw_parse(expression_no_whitespace)", "parsed = self.raw_parse(expression)", 'D5'),
     Mutant('cache-keyed-by-raw-string', EXPR, "cache_key = expression_no_whitespace", "cache_key = expression", 'D5'),
@@ -1321,5 +1398,10 @@ BENIGN = [
     Benign('cache-lookup-by-keyerror', EXPR, "        if expression_no_whitespace in self.cache:\n            return self.cache[cache_key]\n",
            "        try:\n            return self.cache[cache_key]\n        except KeyError:\n            pass\n"),
     Benign('grammar-signs-by-tuple-assignment', EXPR, "        minus = Literal(\"-\") | emdash\n", "        minus, dash = (Literal(\"-\") | emdash, emdash)\n"),
+    Benign('evaluator-nan-exits-merged', EXPR, "    if formula is None:\n        # No need to go further.\n        return float('nan'), empty_usage\n    formula = formula.strip()\n    if formula == \"\":",
+           "    if formula is not None:\n        formula = formula.strip()\n    if formula is None or formula == \"\":"),
+    Benign('product-pairs-from-a-generator', EXPR, "        data = parse_result[1:]\n        while data:\n            op = data.pop(0)\n            value = data.pop(0)\n",
+           "        def pairs(items):\n            while items:\n                yield items.pop(0), items.pop(0)\n\n        for op, value in pairs(parse_result[1:]):\n"),
+    Benign('negation-by-parity', EXPR, "return num * (-1)**(len(parse_result) - 1)", "return num * (-1 if (len(parse_result) - 1) % 2 else 1)"),
     Benign('evaluator-blank-test-inlined', EXPR, "    formula = formula.strip()\n    if formula == \"\":", "    formula = formula.strip()\n    if not formula:"),
 ]
